@@ -1065,6 +1065,8 @@ var corpus = []struct {
 }{
 	// buffered item deleted before the first Optimize comes back (Consolidate re-upserts every buffered id)
 	{"buffer-delete-optimize", caseKind{ai.Dynamic, true, true, false}, []string{"up 0 1", "up 1 2", "del 0", "opt"}},
+	// a buffered id that is not the first one, deleted before the first Optimize, is live again after it (empty vector)
+	{"buffer-delete-later-id", caseKind{ai.Dynamic, true, true, false}, []string{"up 0 1", "up 1 2", "del 1", "opt"}},
 	// count tracking: delete / re-upsert cycles drive a centroid's count to -1, the next new id divides by zero
 	{"tracking-count", caseKind{ai.DynamicWithVectorCountTracking, false, true, false}, []string{"up 0 1", "del 0", "up 0 1", "del 0", "up 0 1", "up 1 2"}},
 	// dedup off and an id upserted twice (outside the documented usage rule): recorded, see run()
